@@ -169,6 +169,7 @@ def special_unit():
     # templated class with 2 instantiations + method template with explicit args + static template
     gt.append(D.cls('Tc', [D.ctor('Tc'), D.ctor('Tc', [arg(T('T', 1, '&'), 'v')]), D.method(single(T('int')), 'objId', [], 1),
                            D.method(single(T('int')), 'put', [arg(T('T'), 'x'), arg(T('int'), 'n', '3')]),
+                           D.method(single(T('int')), 'many', [arg(T(V, 1, '&', [T('T')]), 'xs')]),
                            D.method(single(T('int')), 'as', [arg(T('U', 1, '&'), 'u'), arg(T('T'), 't')],
                                     tpl=[D.tparam('U', [T('double'), T(A)])]),
                            D.static(single(T('int')), 'conv', [arg(T('U'), 'u')], tpl=[D.tparam('U', [T('string'), T('int')])])],
@@ -177,6 +178,8 @@ def special_unit():
         plan.append({'kind': 'ctor', 'cls': 'gt.' + pyn, 'entity': 'gt::Tc<%s>::Tc' % tn, 'gens': [tg], 'names': ['v'], 'defaults': [None], 'k': 0})
         plan.append({'kind': 'method', 'cls': 'gt.' + pyn, 'name': 'put', 'entity': 'gt::Tc<%s>::put' % tn, 'gens': [tg, 'int'],
                      'names': ['x', 'n'], 'defaults': [None, '3'], 'k': 1})
+        plan.append({'kind': 'method', 'cls': 'gt.' + pyn, 'name': 'many', 'entity': 'gt::Tc<%s>::many' % tn,
+                     'gens': ['vec' if tg == 'int' else 'objvec'], 'names': ['xs'], 'defaults': [None], 'k': 0})
         for un, ug, us in (('double', 'double', 'Double'), (A, 'obj', 'Arg')):
             plan.append({'kind': 'method', 'cls': 'gt.' + pyn, 'name': 'as' + us, 'entity': 'gt::Tc<%s>::as<%s>' % (tn, un),
                          'gens': [ug, tg], 'names': ['u', 't'], 'defaults': [None, None], 'k': 0})
@@ -216,6 +219,8 @@ def special_unit():
     gt.append(D.cls('Ba', [D.ctor('Ba'), D.method(single(T('int')), 'objId', [], 1), D.method(single(T('int')), 'base', [arg(T('int'), 'a')], 1)], v=1))
     gt.append(D.cls('De', [D.ctor('De'), D.method(single(T('int')), 'derived', [], 1)], v=1, b=T('gt::Ba')))
     gt.append(D.ns('deep', [D.cls('Dd', [D.ctor('Dd')], v=1, b=T('gt::Ba'))]))
+    gt.append(D.cls('Dn', [D.enum('Mode', ['ON', 'OFF']), D.ctor('Dn')], v=1, b=T('gt::Ba')))
+    plan.append({'kind': 'inherit', 'derived': 'gt.Dn', 'base': 'gt.Ba', 'method': 'base', 'entity': 'gt::Ba::base'})
     plan.append({'kind': 'inherit', 'derived': 'gt.De', 'base': 'gt.Ba', 'method': 'base', 'entity': 'gt::Ba::base'})
     plan.append({'kind': 'inherit', 'derived': 'gt.deep.Dd', 'base': 'gt.Ba', 'method': 'base', 'entity': 'gt::Ba::base'})
     # variables
@@ -256,6 +261,9 @@ def rep(v, hint=None):
     return 'py:' + repr(v)
 
 counter = [10]
+def ARG():
+    return get(ARGCLS[0])()
+ARGCLS = ['gt.Arg']
 def gen_value(g, pos):
     counter[0] += 1
     n = counter[0]
@@ -263,8 +271,9 @@ def gen_value(g, pos):
     if g == 'double': return n + 0.25, None
     if g == 'bool': return (n % 2 == 0), None
     if g == 'str': return 'v%d' % n, None
-    if g == 'obj': return M.gt.Arg(), None
+    if g == 'obj': return ARG(), None
     if g == 'vec': return [n, n + 1, n + 2], None
+    if g == 'objvec': return [ARG(), ARG()], None
     if g == 'char': return chr(97 + n % 26), 'char'
     if g == 'uchar': return 100 + n % 100, 'uchar'
     if g.startswith('enum:'):
@@ -364,6 +373,9 @@ BIN = {'+': OP.add, '-': OP.sub, '*': OP.mul, '/': OP.truediv, '%': OP.mod, '^':
 for step in plan:
     kind = step['kind']
     try:
+        if kind == 'config':
+            ARGCLS[0] = step['argcls']
+            continue
         if kind in ('method', 'static', 'function', 'ctor', 'overload', 'overload-static'):
             run_callable(step)
         elif kind == 'binop':
@@ -397,7 +409,7 @@ for step in plan:
                     fails.append({'step': step, 'form': p, 'what': 'const-property-writable', 'detail': ''})
                 except AttributeError:
                     pass
-            a = M.gt.Arg()
+            a = ARG()
             setattr(o, step['objprop'], a)
             if getattr(o, step['objprop']).objId() != a.objId():
                 fails.append({'step': step, 'form': step['objprop'], 'what': 'property-wrong-field', 'detail': 'object property'})
@@ -436,10 +448,22 @@ def run_unit(case):
             mod, plan = special_unit()
         else:
             mod, plan = build_unit(case['unit'])
+            top = case['unit'].get('top', [''])
+            if len(top) > 1:
+                # python paths are relative to the top namespace; the support namespace gt is then the module itself
+                strip = '.'.join(top[1:])
+                for st in plan:
+                    for key in ('cls', 'mod'):
+                        if key in st:
+                            v = st[key]
+                            st[key] = v[len(strip):].lstrip('.') if v.startswith(strip) else v
+                    st['gens'] = [g.replace('enum:' + strip + '.', 'enum:') for g in st['gens']]
+                plan.insert(0, {'kind': 'config', 'argcls': 'Arg'})
         text = D.render(mod)
         label = case['unit'].get('label', '?')
         try:
-            out = gen.pybind(text, template=cxx.MODULE_TEMPLATE, module_name='mod', submodules=[])
+            out = gen.pybind(text, template=cxx.MODULE_TEMPLATE, module_name='mod', submodules=[],
+                             top=case['unit'].get('top', ['']))
         except Exception as e:
             return {'viol': [{'sig': 'C04|%s|generator-exception|%s' % (label, type(e).__name__),
                               'msg': '%s: %s\n--- input ---\n%s' % (type(e).__name__, str(e)[:300], text)}]}
@@ -495,6 +519,11 @@ def units(thorough):
             scopes = ['gt', 'gt::inner']
         for sc in scopes:
             out.append({'kind': kind, 'scope': sc, 'callables': cs, 'label': '%s@%s' % (kind, sc or 'global')})
+    # a non-root top namespace: gt becomes the module itself, gt::inner the submodule inner
+    for kind in ('function', 'static', 'method', 'ctor'):
+        for sc in ('gt', 'gt::inner'):
+            out.append({'kind': kind, 'scope': sc, 'callables': cs[:12] + cs[-14:], 'top': ['', 'gt'],
+                        'label': '%s@%s/top=gt' % (kind, sc)})
     out.append({'special': True, 'label': 'special'})
     return out
 
